@@ -103,13 +103,12 @@ package controller
 // ValidateNodeGroup itself" can be carried from call to call.
 //@ ghost mark int
 //@ func ValidateNodeGroup$1(cond, format, output)
-//@   requires problems != nil
-//@   requires base(deref(problems)) == nil || birth(base(deref(problems))) >= mark
+//@   requires base(problems) == nil || birth(base(problems)) >= mark
 //@   requires mark <= now
-//@   modifies cell(problems), elems(deref(problems))
-//@   ensures cond ==> len(deref(problems)) == old(len(deref(problems)))
-//@   ensures !cond ==> len(deref(problems)) == old(len(deref(problems))) + 1
-//@   ensures base(deref(problems)) == nil || birth(base(deref(problems))) >= mark
+//@   modifies cell(problems$ref), elems(problems)
+//@   ensures cond ==> len(deref(problems$ref)) == old(len(problems))
+//@   ensures !cond ==> len(deref(problems$ref)) == old(len(problems)) + 1
+//@   ensures base(deref(problems$ref)) == nil || birth(base(deref(problems$ref))) >= mark
 
 // C16 (validator half): everything the statement lists follows from an empty problem list.
 //@ func ValidateNodeGroup(nodegroup) (problems)
@@ -573,3 +572,37 @@ package controller
 //@   invariant nBuildFail == old(nBuildFail)
 //@   invariant [C19] forall k :: old(Jlen) <= k && k < Jlen && Jkind[k] == C_DELNODE ==> !isNotInGroup(Jerr[k])
 //@   invariant [C03] forall i :: 0 <= i && i < #i && c.Opts.NodeGroups[i].MinNodes == 0 && c.Opts.NodeGroups[i].MaxNodes == 0 ==> c.nodeGroups[c.Opts.NodeGroups[i].Name].Opts.MinNodes == cmin(c.Opts.NodeGroups[i].CloudProviderGroupName) && c.nodeGroups[c.Opts.NodeGroups[i].Name].Opts.MaxNodes == cmax(c.Opts.NodeGroups[i].CloudProviderGroupName)
+
+// ---------------------------------------------------------------- node_group.go: attribution of pods and nodes (C14)
+
+//@ func unwrapNodeSelectorTerms(pod) (r)
+//@   requires pod != nil
+//@   ensures r == termsOf(pod)
+//@ spec termsOf(p *v1.Pod) []v1.NodeSelectorTerm = (p.Spec.Affinity != nil && p.Spec.Affinity.NodeAffinity != nil && p.Spec.Affinity.NodeAffinity.RequiredDuringSchedulingIgnoredDuringExecution != nil ? p.Spec.Affinity.NodeAffinity.RequiredDuringSchedulingIgnoredDuringExecution.NodeSelectorTerms : noTerms())
+//@ spec noTerms() []v1.NodeSelectorTerm = mkslice(nil, 0, 0, "[]v1.NodeSelectorTerm")
+// exprMatch: a match expression on this key with operator In listing this value
+//@ spec exprMatch(x v1.NodeSelectorRequirement, key string, val string) bool = x.Key == key && x.Operator == "In" && (exists v :: 0 <= v && v < len(x.Values) && x.Values[v] == val)
+//@ spec termMatch(t v1.NodeSelectorTerm, key string, val string) bool = exists e :: 0 <= e && e < len(t.MatchExpressions) && exprMatch(t.MatchExpressions[e], key, val)
+//@ spec affIn(p *v1.Pod, key string, val string) bool = exists t :: 0 <= t && t < len(termsOf(p)) && termMatch(termsOf(p)[t], key, val)
+
+// C14: a pod counts toward a label-selected group iff it is not DaemonSet-owned and either its
+// nodeSelector maps the key to the value or a required node-affinity expression on the key uses In and lists it.
+//@ func NewPodAffinityFilterFunc$1(pod) (r)
+//@   requires pod != nil
+//@   ensures [C14] r <==> (!k8s.isDS(pod) && ((has(pod.Spec.NodeSelector, labelKey) && pod.Spec.NodeSelector[labelKey] == labelValue) || affIn(pod, labelKey, labelValue)))
+//@ loop #0
+//@   invariant forall t :: 0 <= t && t < #i ==> !termMatch(termsOf(pod)[t], labelKey, labelValue)
+//@ loop #1
+//@   invariant forall e :: 0 <= e && e < #i ==> !exprMatch(term.MatchExpressions[e], labelKey, labelValue)
+//@ loop #2
+//@   invariant forall v :: 0 <= v && v < #i ==> expression.Values[v] != labelValue
+
+// C14 (default group): neither DaemonSet-owned nor static, no nodeSelector, no affinity rules of any kind.
+//@ func NewPodDefaultFilterFunc$1(pod) (r)
+//@   requires pod != nil
+//@   ensures [C14] r <==> (!k8s.isDS(pod) && !k8s.isStatic(pod) && (forall s string :: !has(pod.Spec.NodeSelector, s)) && (pod.Spec.Affinity == nil || (pod.Spec.Affinity.NodeAffinity == nil && pod.Spec.Affinity.PodAffinity == nil && pod.Spec.Affinity.PodAntiAffinity == nil)))
+
+// C14 (nodes): a node belongs to a group iff its labels map the key to exactly the value.
+//@ func NewNodeLabelFilterFunc$1(node) (r)
+//@   requires node != nil
+//@   ensures [C14] r <==> (has(node.Labels, labelKey) && node.Labels[labelKey] == labelValue)
